@@ -75,7 +75,9 @@ def tlc(spec, cfg, workdir, env=None, workers=1, timeout=3600, extra=(), heap="3
     import uuid
     md = os.path.join(workdir, "md_%s_%s" % (os.path.basename(cfg), uuid.uuid4().hex[:10]))
     e = dict(TLC_ENV)
-    e["JAVA_TOOL_OPTIONS"] = e["JAVA_TOOL_OPTIONS"] + " -Xmx" + heap
+    os.makedirs(md, exist_ok=True)
+    # TLC unpacks its standard modules into java.io.tmpdir: keep that inside the (removed) metadir, not in /tmp
+    e["JAVA_TOOL_OPTIONS"] = e["JAVA_TOOL_OPTIONS"] + " -Xmx" + heap + " -Djava.io.tmpdir=" + md
     if env:
         e.update(env)
     cmd = ["tlc", "-workers", str(workers), "-metadir", md, "-cleanup", "-noGenerateSpecTE", "-config", cfg] + list(extra) + [spec]
